@@ -3,6 +3,12 @@ use crate::util::{Opts, Run};
 #[cfg(feature = "hooks")]
 pub mod dec;
 #[cfg(feature = "hooks")]
+pub mod hostile;
+#[cfg(feature = "hooks")]
+pub mod matcher;
+#[cfg(feature = "hooks")]
+pub mod reuse;
+#[cfg(feature = "hooks")]
 pub mod spec;
 #[cfg(feature = "hooks")]
 pub mod tables;
@@ -15,6 +21,12 @@ pub fn dispatch(engine: &str, opts: &Opts) -> Option<Run> {
         "spec" => Some(spec::run(opts)),
         #[cfg(feature = "hooks")]
         "dec" => Some(dec::run(opts)),
+        #[cfg(feature = "hooks")]
+        "matcher" => Some(matcher::run(opts)),
+        #[cfg(feature = "hooks")]
+        "reuse" => Some(reuse::run(opts)),
+        #[cfg(feature = "hooks")]
+        "hostile" => Some(hostile::run(opts)),
         _ => None,
     }
 }
